@@ -200,6 +200,9 @@ def check(ck: Checker) -> None:
     from .transfer_common import check_claimed_attempted
 
     check_claimed_attempted(ck, m, "C11.absent-is-failed")
+    from .transfer_common import check_missing_readonly
+
+    check_missing_readonly(ck, m, "C11.absent-is-failed")
     from . import round7 as _r7
 
     _r7.on_error_names_oid(ck, "C11.onerror")
